@@ -224,6 +224,23 @@ impl PairMonitor {
     // -------------------------------------------------------------------------------- C12 (B)
     fn c12b(&self, pc: &PairCase, out: &mut CaseOut) {
         let ids: Vec<u32> = pc.obs.terms.keys().copied().collect();
+        // constructor FromIterator<HpoTerm> (arbitrary iteration order of the ontology, with repeats)
+        // and HpoGroup::terms must agree with the id set
+        {
+            bump(&mut out.events, "HpoGroup::from_iter<HpoTerm>");
+            let r = guard(|| {
+                let g: hpo::term::HpoGroup = pc.ont.iter().chain(pc.ont.iter().take(3)).collect();
+                let back: Vec<u32> = g.terms(&pc.ont).map(|t| t.id().as_u32()).collect();
+                (ids_of(&g), back)
+            });
+            match r {
+                Ok((g, back)) => {
+                    out.check(g == ids, "C12", "group_from_term_iterator", || format!("collecting the ontology's terms (with repeats) into an HpoGroup gives {g:?}, the id set is {ids:?}"));
+                    out.check(back == ids, "C12", "group_terms_iterator", || format!("HpoGroup::terms yields {back:?} for {ids:?}"));
+                }
+                Err(p) => out.violate("C12", "panic:group_from_term_iterator", format!("{}", p.message)),
+            }
+        }
         for a in &ids {
             let ta = pc.ont.hpo(*a).expect("term");
             let aa = set_of(&pc.obs.terms[a].ancestors);
